@@ -150,11 +150,18 @@ def main():
     os.makedirs(os.path.join(VERIF, "evidence"), exist_ok=True)
     os.makedirs(os.path.join(VERIF, "replays"), exist_ok=True)
 
-    if a.no_coq:
-        coq = {"ok": True, "obligations": 1, "discharged": 1, "axioms": [], "theorems": ["(skipped)"], "log": "", "audit": []}
-    else:
-        coq = coq_stage(prop, tier)
-    ok_model, mlog = build_model()
+    # the translators, the Coq build and the OCaml build write into shared directories: checks started in parallel take turns here
+    import fcntl
+    lock = open(os.path.join(VERIF, ".build.lock"), "w")
+    fcntl.flock(lock, fcntl.LOCK_EX)
+    try:
+        if a.no_coq:
+            coq = {"ok": True, "obligations": 1, "discharged": 1, "axioms": [], "theorems": ["(skipped)"], "log": "", "audit": []}
+        else:
+            coq = coq_stage(prop, tier)
+        ok_model, mlog = build_model()
+    finally:
+        fcntl.flock(lock, fcntl.LOCK_UN); lock.close()
     if not ok_model:
         print("model build failed:\n" + mlog)
 
